@@ -603,6 +603,12 @@ class ParamValueCodec(Codec):
     def view(v, x):
         return v.pval(x)
 
+    @staticmethod
+    def client_typed(xml):
+        """the typing WBEMConnection._methodcall applies to the PARAMVALUEs of a method response"""
+        name, ptype, raw = parse_default(xml)
+        return CIMParameter(name, ptype, value=raw if ptype == 'reference' else pywbem.cimvalue(raw, ptype))
+
 
 class TypedValue:
     """a bare typed value for the module-level tocimxml(): VALUE / VALUE.ARRAY"""
@@ -701,6 +707,20 @@ def check(key, x0, codec=Codec, expected=None, enc=None, **desc):
         d = []
         diff(expected, got, 'top', d)
         report('roundtrip', [t for t in d if t[0] not in wire_slots or known_leaf(*t)], desc)
+    if codec is ParamValueCodec:
+        try:
+            got = codec.view(GOT, codec.client_typed(xml0))
+        except Exception as e:  # pylint: disable=broad-except
+            violation('paramvalue-client-typing-raises-' + type(e).__name__, error=str(e)[:300], **desc)
+        else:
+            d = []
+            diff(expected, got, 'top', d)
+            for slot, exp, obs in d:
+                if exp == ('boolean', False) and obs == ('boolean', True):
+                    violation('known:paramvalue-boolean-FALSE-typed-True-by-cimvalue', slot=slot, expected=short(exp),
+                              observed=short(obs), **desc)
+                elif not known_leaf(slot, exp, obs):
+                    report('paramvalue-client-typing', [(slot, exp, obs)], desc)
     # 3. once more: same object, byte-identical XML
     try:
         xml1 = codec.reenc(x1)
